@@ -169,6 +169,263 @@ fn family_pairs(n: usize, with_hist: bool, opts: &Opts, sink: Sink) {
     }
 }
 
+/// C19: probe documents: one parallel state, one region per descriptor list, targetless transitions.
+fn family_descriptors(pairs: bool, opts: &Opts, sink: Sink) {
+    let toks = ["a", "ab", "b", "A", "\u{e9}", "\u{e9}e"];
+    let mut lists: Vec<Vec<String>> = vec![];
+    for a in toks {
+        lists.push(vec![a.to_string()]);
+        for b in toks {
+            lists.push(vec![a.to_string(), b.to_string()]);
+        }
+    }
+    // descriptors with an inner empty token
+    lists.push(vec!["a".into(), "".into(), "b".into()]);
+    lists.push(vec!["\u{e9}".into(), "".into(), "a".into()]);
+    let mut descs: Vec<String> = vec!["*".to_string()];
+    for l in &lists {
+        let base = l.join(".");
+        descs.push(base.clone());
+        descs.push(format!("{}.", base));
+        descs.push(format!("{}.*", base));
+    }
+    let mut dlists: Vec<String> = descs.clone();
+    if pairs {
+        for a in &descs {
+            for b in &descs {
+                if a != b {
+                    dlists.push(format!("{} {}", a, b));
+                }
+            }
+        }
+    }
+    // event names: 1..3 tokens over the alphabet incl. the empty token (not all empty)
+    let ntoks = ["a", "ab", "b", "A", "\u{e9}", "\u{e9}e", ""];
+    let mut names: Vec<String> = vec![];
+    for a in ntoks {
+        if !a.is_empty() {
+            names.push(a.to_string());
+        }
+        for b in ntoks {
+            let n2 = format!("{}.{}", a, b);
+            if n2 != "." {
+                names.push(n2);
+            }
+            for c in ntoks {
+                let n3 = format!("{}.{}.{}", a, b, c);
+                if n3 != ".." {
+                    names.push(n3);
+                }
+            }
+        }
+    }
+    names.sort();
+    names.dedup();
+    let per_doc = 24;
+    for (ci, chunk) in dlists.chunks(per_doc).enumerate() {
+        let mut d = Doc::new();
+        let p = d.add(0, "p", Kind::Parallel);
+        for (i, dl) in chunk.iter().enumerate() {
+            let r = d.add(p, &format!("r{}", i), Kind::State);
+            d.nodes[r].trans.push(Trans {
+                events: dl.split(' ').map(|x| x.to_string()).collect(),
+                cond: None,
+                targets: vec![],
+                internal: false,
+                content: vec![],
+            });
+        }
+        let mut o = opts.clone();
+        o.extra_events = names.clone();
+        o.alphabet_only_extra = true;
+        sink(Item {
+            label: format!("descriptors chunk{} [{}]", ci, chunk.join(" | ")),
+            doc: d,
+            opts: o,
+            sig_hint: String::new(),
+        });
+    }
+}
+
+/// C03: queue-order documents. Three flat states in a ring; every transition trigger from a menu
+/// (external event, internal events, guarded eventless), every content block from a producer menu.
+fn family_queues(thorough: bool, opts: &Opts, sink: Sink) {
+    let triggers: Vec<(Vec<String>, Option<Expr>)> = vec![
+        (vec!["e1".into()], None),
+        (vec!["x".into()], None),
+        (vec!["y".into()], None),
+        (vec![], Some(Expr::VarLt("v".into(), 2))),
+        (vec!["error.execution".into()], None),
+    ];
+    let mut producers: Vec<Vec<Stmt>> = vec![
+        vec![],
+        vec![Stmt::Raise("x".into())],
+        vec![Stmt::Raise("x".into()), Stmt::Raise("y".into())],
+        vec![Stmt::Raise("y".into()), Stmt::SendInternal("x".into())],
+        vec![Stmt::SendSelf("e1".into()), Stmt::Raise("y".into())],
+        vec![Stmt::Assign("undeclared".into(), Expr::Int(1)), Stmt::Raise("x".into())],
+    ];
+    if !thorough {
+        producers.truncate(5);
+    }
+    let ntrig = if thorough { triggers.len() } else { 4 };
+    let mut idx = 0usize;
+    for t1 in 0..ntrig {
+        for t2 in 0..ntrig {
+            for t3 in 0..ntrig {
+                for p1 in 0..producers.len() {
+                    for p2 in 0..producers.len() {
+                        for pe in 0..producers.len() {
+                            if !thorough && (p1 + p2 + pe) % 2 == 1 && pe > 1 {
+                                // quick tier: the listed sub-family with pe in {0,1} or even index sum
+                                continue;
+                            }
+                            idx += 1;
+                            let mut d = Doc::new();
+                            d.nodes[0].data.push(("v".into(), Some(Expr::Int(0))));
+                            let s1 = d.add(0, "s1", Kind::State);
+                            let s2 = d.add(0, "s2", Kind::State);
+                            let s3 = d.add(0, "s3", Kind::State);
+                            std_marks(&mut d);
+                            let mk = |d: &mut Doc, src: Nx, tgt: Nx, t: usize, p: usize| {
+                                let (ev, cond) = triggers[t].clone();
+                                let mut content = vec![Stmt::Mark(vec!["t".into(), d.nodes[src].name.clone()])];
+                                if ev.is_empty() {
+                                    content.push(Stmt::Assign("v".into(), Expr::VarPlus("v".into(), 1)));
+                                }
+                                content.extend(producers[p].clone());
+                                d.nodes[src].trans.push(Trans {
+                                    events: ev,
+                                    cond,
+                                    targets: vec![tgt],
+                                    internal: false,
+                                    content,
+                                });
+                            };
+                            mk(&mut d, s1, s2, t1, p1);
+                            mk(&mut d, s2, s3, t2, p2);
+                            mk(&mut d, s3, s1, t3, 0);
+                            d.nodes[s2].onentry.push(producers[pe].clone());
+                            // a wildcard-free catch of stray internal events, targetless, lowest priority
+                            sink(Item {
+                                label: format!("queues #{} t{}{}{} p{}{} e{}", idx, t1, t2, t3, p1, p2, pe),
+                                doc: d,
+                                opts: opts.clone(),
+                                sig_hint: String::new(),
+                            });
+                        }
+                    }
+                }
+            }
+        }
+    }
+}
+
+/// C06: documents with two history pseudo-states (all parent / type combinations), singles exploration.
+fn family_two_histories(n: usize, opts: &Opts, sink: Sink) {
+    for f in shapes_upto(n) {
+        let inner = inner_ordinals(&f);
+        for (i, a) in inner.iter().enumerate() {
+            for b in inner.iter().skip(i) {
+                for (da, db) in [(false, true), (true, false), (false, false), (true, true)] {
+                    if a == b && da == db {
+                        continue;
+                    }
+                    if a == b && da {
+                        continue; // (shallow, deep) in the same parent listed once
+                    }
+                    let d0 = base_doc(&f, &[(*a, da), (*b, db)]);
+                    let hs: Vec<Nx> = (0..d0.nodes.len()).filter(|x| d0.is_history(*x)).collect();
+                    if hs.len() != 2 {
+                        continue;
+                    }
+                    // default targets: first legal one for each (all combinations of first/last)
+                    let d1 = history_defaults(&d0, hs[0]);
+                    let d2 = history_defaults(&d0, hs[1]);
+                    for t1 in [d1.first(), d1.last()] {
+                        for t2 in [d2.first(), d2.last()] {
+                            let (t1, t2) = match (t1, t2) {
+                                (Some(x), Some(y)) => (*x, *y),
+                                _ => continue,
+                            };
+                            let mut d = d0.clone();
+                            set_history_default(&mut d, hs[0], t1);
+                            set_history_default(&mut d, hs[1], t2);
+                            let cands: Vec<Cand> = candidates(&d, false, false, true)
+                                .into_iter()
+                                .filter(|c| !is_hist_inside(&d0, c))
+                                .collect();
+                            for (i, c) in cands.iter().enumerate() {
+                                add_trans(&mut d, c, Some(&format!("t{}", i)), None, "");
+                            }
+                            sink(Item {
+                                label: format!("twohist {:?} {}{} {}{} >{} >{}", shape_str(&f), a, da, b, db, t1, t2),
+                                doc: d,
+                                opts: opts.clone(),
+                                sig_hint: String::new(),
+                            });
+                        }
+                    }
+                }
+            }
+        }
+    }
+}
+
+/// C07: shapes that contain final states; transitions triggered by done.state events make their
+/// processing observable; donedata with params / content on every nested final.
+fn family_finals(n: usize, opts: &Opts, sink: Sink) {
+    for f in shapes_upto(n) {
+        if !has_kind(&f, &K::F) {
+            continue;
+        }
+        for variant in 0..3 {
+            let mut d = base_doc(&f, &[]);
+            d.nodes[0].data.push(("v".into(), Some(Expr::Int(7))));
+            let cands: Vec<Cand> = candidates(&d, true, false, true);
+            for (i, c) in cands.iter().enumerate() {
+                add_trans(&mut d, c, Some(&format!("t{}", i)), None, "");
+            }
+            // observers for done events on the root's first child chain
+            for s in 1..d.nodes.len() {
+                if matches!(d.nodes[s].kind, Kind::State | Kind::Parallel) {
+                    let nm = d.nodes[s].name.clone();
+                    d.nodes[s].trans.push(Trans {
+                        events: vec!["done.state".into()],
+                        cond: None,
+                        targets: vec![],
+                        internal: false,
+                        content: vec![Stmt::MarkE(vec!["done-seen-in".into(), nm], Expr::EvName)],
+                    });
+                }
+                if d.nodes[s].kind == Kind::Final && d.nodes[s].parent != Some(0) {
+                    match variant {
+                        1 => {
+                            d.nodes[s].donedata = Some(DoneData {
+                                params: vec![("p".into(), Expr::Var("v".into())), ("q".into(), Expr::Int(2))],
+                                content: None,
+                            })
+                        }
+                        2 => {
+                            d.nodes[s].donedata = Some(DoneData {
+                                params: vec![],
+                                content: Some(Expr::VarPlus("v".into(), 1)),
+                            })
+                        }
+                        _ => {}
+                    }
+                }
+            }
+            sink(Item {
+                label: format!("finals {:?} v{}", shape_str(&f), variant),
+                doc: d,
+                opts: opts.clone(),
+                sig_hint: String::new(),
+            });
+        }
+    }
+}
+
 fn families(ctx: &Ctx, sink: Sink) {
     let thorough = ctx.thorough();
     match ctx.prop.as_str() {
@@ -190,6 +447,59 @@ fn families(ctx: &Ctx, sink: Sink) {
             family_singles(4, true, true, thorough, &o, sink);
             family_pairs(if thorough { 4 } else { 3 }, thorough, &o, sink);
             family_hist_inside(3, &o, sink);
+        }
+        "C03" => {
+            let o = Opts {
+                burst: true,
+                ..Opts::default()
+            };
+            family_queues(thorough, &o, sink);
+        }
+        "C06" => {
+            let o = Opts::default();
+            // shapes with one history state (every parent, type, default target), all transitions
+            for f in shapes_upto(if thorough { 5 } else { 4 }) {
+                if inner_ordinals(&f).is_empty() {
+                    continue;
+                }
+                if count_states(&f) == 5 && depth(&f) < 3 {
+                    continue;
+                }
+                for (hl, d0) in hist_variants(&f, true).into_iter().skip(1) {
+                    let mut d = d0.clone();
+                    let cands: Vec<Cand> = candidates(&d, count_states(&f) < 5, false, true)
+                        .into_iter()
+                        .filter(|c| !is_hist_inside(&d0, c))
+                        .collect();
+                    for (i, c) in cands.iter().enumerate() {
+                        add_trans(&mut d, c, Some(&format!("t{}", i)), None, "");
+                    }
+                    sink(Item {
+                        label: format!("history {:?} {}", shape_str(&f), hl),
+                        doc: d,
+                        opts: o.clone(),
+                        sig_hint: String::new(),
+                    });
+                }
+            }
+            family_two_histories(if thorough { 4 } else { 3 }, &o, sink);
+            let oi = Opts {
+                check_legality: true,
+                ..Opts::default()
+            };
+            family_hist_inside(3, &oi, sink);
+        }
+        "C07" => {
+            let o = Opts {
+                cancel_everywhere: true,
+                burst: true,
+                ..Opts::default()
+            };
+            family_finals(if thorough { 5 } else { 4 }, &o, sink);
+        }
+        "C19" => {
+            let o = Opts::default();
+            family_descriptors(thorough, &o, sink);
         }
         _ => panic!("e1: unknown property {}", ctx.prop),
     }
@@ -255,7 +565,7 @@ fn worker(ctx: &Ctx) {
             }
         }
         if let Some(s) = &r.sample {
-            if r.states > 2 {
+            if r.states > 2 || out.samples.is_empty() {
                 out.sample(json!({"family_item": item.label, "index": my, "explored": s, "states": r.states, "edges": r.edges}));
             }
         }
@@ -331,22 +641,38 @@ fn main() {
         return;
     }
     let agg = run_workers(&ctx);
+    let common_assume: Vec<String> = vec![
+        "generated document families up to the stated size bounds; larger documents are not covered".into(),
+        "observation through the public Tracer callbacks, a custom Action (mark) and GlobalData read at the idle point".into(),
+        "a 20 s wall-clock watchdog without reaching the idle point is the only hang detector".into(),
+        "reference interpreter /verif/harness/src/refint.rs is the oracle for the W3C algorithm".into(),
+    ];
     let (rule, level_assumptions): (&str, Vec<String>) = match ctx.prop.as_str() {
         "C01" => (
             "every kinded ordered state tree up to the size bound (x history variants) with every candidate transition on its own event (family 'singles') and every pair of simultaneously enable-able transitions on one event from every legal root initial specification (family 'pairs'); complete reachable graph of canonical idle states per document; a state is (configuration, history values, data values); invariants of a legal configuration evaluated after start-up and after every microstep, enter/exit discipline inside microsteps, live configuration snapshots from the mark action",
-            vec![
-                "documents are the generated families; larger documents are not covered".into(),
-                "observation through the public Tracer callbacks and a custom Action reading GlobalData.configuration".into(),
-                "a wall-clock watchdog (20 s without reaching the idle point) is the only hang detector".into(),
-            ],
+            common_assume.clone(),
         ),
-        _ => (
+        "C02" => (
             "same document families as C01; every edge (one external event = one macrostep of a real session) is compared observation by observation (selected transitions by document position, exit order, content marks, entry order, internal events) and state by state with the reference interpreter; the same history re-executed must reproduce the identical trace",
-            vec![
-                "reference interpreter in /verif/harness/src/refint.rs is the oracle for the W3C algorithm".into(),
-                "larger documents than the size bound are not covered (the property text allows sampling there; this family does not sample)".into(),
-            ],
+            common_assume.clone(),
         ),
+        "C03" => (
+            "three-state ring documents: every combination of transition triggers (external, internal x/y, guarded eventless, error.execution) and content producers (raise, send #_internal, self-send, failing assign) in transitions and onentry; complete reachable graph; every edge compared with the reference order (eventless first, oldest internal event next, external last); every run replayed with all events enqueued up-front (burst) and compared",
+            common_assume.clone(),
+        ),
+        "C06" => (
+            "every kinded state tree up to the bound with one history pseudo-state (every parent, shallow/deep, every legal default target) or two history pseudo-states, every candidate transition (including history targets) on its own event; complete reachable graph covers every recordable history value; entry sets, default-transition content position and recorded history values compared with the reference on every edge",
+            common_assume.clone(),
+        ),
+        "C07" => (
+            "every kinded state tree up to the bound that contains final states, with donedata variants (none / params / content), observers for done.state events in every state, every candidate transition on its own event, the platform cancel event sent from every reachable state, and burst delivery (events queued behind the one that reaches the top-level final); traces, final configuration and done events compared with the reference",
+            common_assume.clone(),
+        ),
+        "C19" => (
+            "probe documents: one parallel state with one region per descriptor list (descriptors of 1-2 tokens over {a, ab, b, A, e-acute, e-acute+e} in the spellings d, d., d.*, plus *, plus inner empty tokens; thorough: all ordered pairs of descriptors); every event name of 1-3 tokens over the alphabet incl. the empty token is sent; the set of regions whose transition fired is compared with a token-prefix oracle",
+            common_assume.clone(),
+        ),
+        _ => ("", common_assume.clone()),
     };
     let spec = EvidenceSpec {
         level: "model_checking",
